@@ -363,12 +363,106 @@ def stepEx (ws : List String) : Option String :=
   | ["state"] => some "m same"
   | _ => some "bad-op"
 
-inductive Kind | none | mon | rt | ex
+/-! ### adapter sessions (kind ad)
+
+One case = one round of a real DAP session against the real `trust-debug` binary, linearised from the
+adapter's own transcript (`ST_DEBUG_DAP_LOG`): request handlers of the request thread, stops produced
+by the runtime and decisions of the stop coordinator.  The runtime's side is an INPUT here (`ahit`:
+the stop the real runtime produced, as the coordinator received it); the handlers and the
+coordinator's decision are the model's (`astep`: `reqPause` / `reqContinue` / `reqStep` / `reqSetBps` /
+`coord`, i.e. `shouldEmitStop` + `stillParkedOn`).
+
+  ainit <P|R> <pe 0|1> <f:g,..|-> <stop|->    state at the start of the round (quiescent)
+  areq pause | cont | in | over | out | setbps <file>
+  ahit <stop>                                   stop = <B|S|P|E>/<f:s:e|->/<thread|->/<gen|->
+  acoord                                        the coordinator examines the oldest queued stop
+  aend
+every op is answered (`m ...`). -/
+
+def parseReason? : String → Option Reason
+  | "B" => some .breakpoint | "S" => some .step | "P" => some .pause | "E" => some .entry | _ => none
+
+def parseLoc? (s : String) : Option (Option Loc) :=
+  if s = "-" then some none else
+  match s.splitOn ":" with
+  | [f, a, b] => do
+    let f ← f.toNat?
+    let a ← a.toNat?
+    let b ← b.toNat?
+    some (some ⟨f, a, b⟩)
+  | _ => none
+
+def parseStop? (s : String) : Option Stop :=
+  match s.splitOn "/" with
+  | [r, l, t, g] => do
+    let r ← parseReason? r
+    let l ← parseLoc? l
+    let t ← optNat? t
+    let g ← optNat? g
+    some { reason := r, loc := l, thread := t, gen := g }
+  | _ => none
+
+def parseGens? (s : String) : Option (List (Nat × Nat)) :=
+  if s = "-" then some [] else
+  (s.splitOn ",").mapM fun kv =>
+    match kv.splitOn ":" with
+    | [k, v] => do
+      let k ← k.toNat?
+      let v ← v.toNat?
+      some (k, v)
+    | _ => none
+
+def showBit (b : Bool) : String := if b then "1" else "0"
+
+def stepAd (s : ASys) (ws : List String) : ASys × Option String :=
+  match ws with
+  | ["ainit", mode, pe, gens, last] =>
+    let mode? : Option Mode := if mode = "P" then some .paused else if mode = "R" then some .running else none
+    let last? : Option (Option Stop) := if last = "-" then some none else (parseStop? last).map some
+    match mode?, parseBool? pe, parseGens? gens, last? with
+    | some m, some pe, some gens, some last =>
+      let parked := m == .paused
+      ({ ASys.init with d := { DState.init with mode := m, bpGeneration := gens, lastStop := last },
+                        parked := parked, parkLoc := last.bind (·.loc), pauseExpected := pe,
+                        clientStopped := parked }, some "m ok")
+    | _, _, _, _ => (s, some "bad-op")
+  | ["areq", "pause"] =>
+    let ignored := s.d.mode == .paused
+    (astep s .reqPause, some (if ignored then "m ignored" else "m requested"))
+  | ["areq", "cont"] => ({ astep s .reqContinue with parked := false }, some "m -")
+  | ["areq", "in"] => ({ astep s (.reqStep (.stepIn (some 1))) with parked := false }, some "m -")
+  | ["areq", "over"] => ({ astep s (.reqStep (.stepOver (some 1))) with parked := false }, some "m -")
+  | ["areq", "out"] => ({ astep s (.reqStep (.stepOut (some 1))) with parked := false }, some "m -")
+  | ["areq", "setbps", f] =>
+    match f.toNat? with
+    | some f => (astep s (.reqSetBps f []), some "m -")
+    | none => (s, some "bad-op")
+  | ["ahit", st] =>
+    match parseStop? st with
+    | some st =>
+      -- a parked cycle thread cannot produce a stop: such a linearisation is not a run
+      if s.parked then (s, some "m invalid") else
+      ({ s with d := { s.d with mode := .paused, lastStop := some st, pendingStop := none, steps := [] },
+                parked := true, parkLoc := st.loc, chan := s.chan ++ [st] }, some "m ok")
+    | none => (s, some "bad-op")
+  | ["acoord"] =>
+    match s.chan with
+    | [] => (s, some "m empty")
+    | st :: _ =>
+      let s1 := astep s .coord
+      let emitted := decide (s1.emitted.length > s.emitted.length)
+      (s1, some s!"m {if emitted then "emit" else "drop"} {showStop st}")
+  | ["aend"] =>
+    (s, some s!"m parked={showBit s.parked} queued={s.chan.length} told={showBit (!s.parked || s.clientStopped)} pe={showBit s.pauseExpected}")
+  | _ => (s, some "bad-op")
+
+inductive Kind | none | mon | rt | ex | ad
 
 structure St where
   kind : Kind := .none
   mon : MonSt := {}
   rt : RtSt := {}
+  ad : ASys := ASys.init
 
 def stepLine (st : St) (line : String) : St × Option String :=
   let ws := words line
@@ -381,6 +475,7 @@ def stepLine (st : St) (line : String) : St × Option String :=
   | ["kind", "mon"] => ({ st with kind := .mon }, none)
   | ["kind", "rt"] => ({ st with kind := .rt }, none)
   | ["kind", "ex"] => ({ st with kind := .ex }, none)
+  | ["kind", "ad"] => ({ st with kind := .ad }, none)
   | _ =>
     if line.startsWith "#" then (st, none) else
     match st.kind with
@@ -388,6 +483,7 @@ def stepLine (st : St) (line : String) : St × Option String :=
     | .mon => let (m, o) := stepMon st.mon ws line; ({ st with mon := m }, o)
     | .rt => let (r, o) := stepRt st.rt ws; ({ st with rt := r }, o)
     | .ex => (st, stepEx ws)
+    | .ad => let (a, o) := stepAd st.ad ws; ({ st with ad := a }, o)
 
 def main (lines : Array String) (_args : List String) : IO Unit := do
   let mut st : St := {}
